@@ -240,7 +240,8 @@ def pass (L : Lits α) (P : Params α) (s : State α) (o : PassOracle α) : Sum 
     if cnt.total > P.nmax then .inr { status := .needLargerNMax, h := s.h, x := s.x, cnt := cnt }
     else if L.tenth * Num.abs s.h ≤ Num.abs s.x * P.uround then .inr { status := .stepSizeTooSmall, h := s.h, x := s.x, cnt := cnt }
     else
-      let xph := s.x + s.h
+      -- `xph = if last { xend } else { x + h }`: the landing step ends at xend itself
+      let xph := if s.last then P.xend else s.x + s.h
       let faccon := Num.pow (Num.fmax s.faccon P.uround) L.p8
       let theta := Num.abs L.thet
       match newtonLoop L P (P.maxNewton + 1) o.dynos 0 theta s.thqold s.dynold faccon s.h s.hhfac cnt.rejected s.last cnt.ode with
